@@ -21,7 +21,7 @@ func init() { core.Register(c06{}) }
 func (c06) ID() string    { return "C06" }
 func (c06) Level() string { return "exploration" }
 func (c06) Rule() string {
-	return "seeded populations of 3..25 providers over the palette (several types per interface, several interfaces per type, named/unnamed, lazy/eager, with/without the func-tag methods) + consumers of every field kind {*T, I, []*T, []I, any, []any} carrying wire:\"\" / func:\"M\" / func:\"M,returns=a b\" / returns=* (optional or required); consumers are palette nodes (per-instance dynamic tags, may themselves be candidates) and reflect.StructOf holders (literal tags). Each scenario is started under 4 registration x enumeration x candidate orders. Oracle: reference model (set comprehension over the registered population) vs. black-box observation, per point: single point inside tied(S), slice == S exactly once each, never the holder, start fails iff a certainly-created component has a required point with S empty. non-trivial = some point with >= 2 candidates; distinct = canonical scenario signature; zero-size providers (distinct stateless components of several types) and wire tags whose placeholder resolves to the empty name (by-type points) take part; providers that are not pointers to structs take part; required slice points pre-populated before the start; funcPointers family (func points on *T / []*T over unnamed + named instances of T); contributedProviders family (definitions contributed by a factory post-processor through get-or-register / RegisterMeta); argMethods family (requested methods that take parameters); sameNamedTypes family (by-type points of types from two packages that print alike)"
+	return "seeded populations of 3..25 providers over the palette (several types per interface, several interfaces per type, named/unnamed, lazy/eager, with/without the func-tag methods) + consumers of every field kind {*T, I, []*T, []I, any, []any} carrying wire:\"\" / func:\"M\" / func:\"M,returns=a b\" / returns=* (optional or required); consumers are palette nodes (per-instance dynamic tags, may themselves be candidates) and reflect.StructOf holders (literal tags). Each scenario is started under 4 registration x enumeration x candidate orders. Oracle: reference model (set comprehension over the registered population) vs. black-box observation, per point: single point inside tied(S), slice == S exactly once each, never the holder, start fails iff a certainly-created component has a required point with S empty. non-trivial = some point with >= 2 candidates; distinct = canonical scenario signature; zero-size providers (distinct stateless components of several types) and wire tags whose placeholder resolves to the empty name (by-type points) take part; providers that are not pointers to structs take part; required slice points pre-populated before the start; funcPointers family (func points on *T / []*T over unnamed + named instances of T); contributedProviders family (definitions contributed by a factory post-processor through get-or-register / RegisterMeta); argMethods family (requested methods that take parameters); sameNamedTypes family (by-type points of types from two packages that print alike); processorHolder family (an eager component post-processor as the holder of by-type points)"
 }
 func (c06) Assumptions() []string {
 	return []string{
